@@ -24,7 +24,7 @@ for f in $LIBC; do
 done
 par clang++ -std=c++17 -O0 $A -c $H/c19_wrap.cpp -o $BUILD/a_wrap.o; AO+=($BUILD/a_wrap.o)
 par g++ -std=c++17 $G -c $H/c19_wrap.cpp -o $BUILD/g_wrap.o; GO+=($BUILD/g_wrap.o)
-for t in text shell path; do
+for t in text long shell path; do
   par clang++ -std=c++17 -O1 $A -c $H/c19_$t.cpp -o $BUILD/a_h_$t.o; AO+=($BUILD/a_h_$t.o)
   par g++ -std=c++17 $G -c $H/c19_$t.cpp -o $BUILD/g_h_$t.o; GO+=($BUILD/g_h_$t.o)
 done
